@@ -457,6 +457,9 @@ class XEval:
             if isinstance(op, (ast.Eq, ast.NotEq)):
                 r = self.eq(a, b)
                 return ("b", r if isinstance(op, ast.Eq) else not r)
+            if isinstance(op, (ast.In, ast.NotIn)) and b[0] == "pairs" and a[0] == "tup":
+                r = any(len(t_) == len(a[1]) and all(self.eq(x_, y_) for x_, y_ in zip(a[1], t_)) for t_ in b[1])
+                return ("b", r if isinstance(op, ast.In) else not r)
             if isinstance(op, (ast.In, ast.NotIn)):
                 if b[0] != "set":
                     raise AnalysisError(f"XFIELD-1: membership in {b!r}")
@@ -495,6 +498,26 @@ class XEval:
                 r = self.ev(e.elt, env2, f)
                 out.add(r[1])
             return ("set", frozenset(out))
+        if isinstance(e, ast.Call) and norm(e.func).rsplit(".", 1)[-1] == "product" and not e.keywords and e.args and (self.I.prog.call_fact(f.module, e) or ("",))[0] in ("itertools.product", "itertools.product.__init__", "itertools.product.__new__"):
+            # itertools.product over small constant collections: the set of tuples, element by element
+            import itertools as _it
+
+            cols = []
+            for a_ in e.args:
+                v_ = self.ev(a_, env, f)
+                if v_[0] == "tup":
+                    cols.append(list(v_[1]))
+                elif v_[0] == "set":
+                    cols.append([("k", x_) for x_ in sorted(v_[1])])
+                else:
+                    raise AnalysisError(f"XFIELD-1: product over {v_!r} not modelled")
+            return ("pairs", frozenset(_it.product(*cols)))
+        if isinstance(e, ast.Call) and isinstance(e.func, ast.Name) and e.func.id in ("set", "frozenset", "tuple", "list") and len(e.args) == 1 and not e.keywords:
+            v_ = self.ev(e.args[0], env, f)
+            if v_[0] == "pairs":
+                return v_
+        if isinstance(e, ast.Tuple) and isinstance(e.ctx, ast.Load):
+            return ("tup", tuple(self.ev(x_, env, f) for x_ in e.elts))
         if isinstance(e, ast.Call):
             return self.call(e, env, f)
         raise AnalysisError(f"XFIELD-1: expression {type(e).__name__} `{norm(e)[:60]}` in {f.fq} not modelled")
@@ -763,6 +786,7 @@ def command_membership_enforced(I: Interp) -> bool:
                             raise
                         if accepted and not inside:
                             return False
-    except AnalysisError:
-        return False
+    except AnalysisError as err:
+        # the validators could not be evaluated symbolically: that says nothing about the premise either way
+        raise AnalysisError(f"premise 'a command outside protocol.Command is rejected by the schema' could not be evaluated: {err}") from err
     return True
